@@ -245,8 +245,9 @@ fn id(
     node: dom::XmlNode,
     _: &mut model::Context,
 ) -> error::Result<model::Value> {
-    if node.owner_document().map(|v| v.doc_type()).is_some() {
-        unimplemented!()
+    if node.owner_document().and_then(|v| v.doc_type()).is_some() {
+        // ID-typed attributes of a DTD are not evaluated: report the function as unavailable instead of panicking
+        Err(error::Error::NotFoundFunction("id".to_string()))
     } else {
         Ok(model::Value::Node(vec![]))
     }
